@@ -255,6 +255,43 @@ fn programs_from_shapes(
     keep
 }
 
+/// `g` with struct and trait names mapped through `f`.
+pub fn rename_goal(g: &Goal, f: &dyn Fn(&str) -> String) -> Goal {
+    fn ty(t: &Ty, f: &dyn Fn(&str) -> String) -> Ty {
+        match t {
+            Ty::App(n, a) => Ty::App(f(n), a.iter().map(|x| ty(x, f)).collect()),
+            o => o.clone(),
+        }
+    }
+    let at = |a: &Atom| Atom { tr: f(&a.tr), self_ty: ty(&a.self_ty, f), args: a.args.iter().map(|x| ty(x, f)).collect() };
+    match g {
+        Goal::Atom(a) => Goal::Atom(at(a)),
+        Goal::Eq(l, r) => Goal::Eq(ty(l, f), ty(r, f)),
+        Goal::And(v) => Goal::And(v.iter().map(|x| rename_goal(x, f)).collect()),
+        Goal::Exists(vs, b) => Goal::Exists(vs.clone(), Box::new(rename_goal(b, f))),
+        Goal::Forall(u, n, b) => Goal::Forall(*u, *n, Box::new(rename_goal(b, f))),
+        Goal::Not(b) => Goal::Not(Box::new(rename_goal(b, f))),
+        Goal::If(hs, b) => Goal::If(hs.iter().map(at).collect(), Box::new(rename_goal(b, f))),
+    }
+}
+
+/// Programs are kept up to the renamings in `symmetries`; so that every (program, goal) pair of
+/// the unreduced space is still represented, the goal set has to be closed under the same
+/// renamings: (P, g) is covered by (sigma P, sigma g).
+pub fn close_goals_under(goals: Vec<Goal>, symmetries: &[&dyn Fn(&str) -> String]) -> Vec<Goal> {
+    let mut seen: std::collections::BTreeSet<String> = goals.iter().map(goal_str).collect();
+    let mut out = goals.clone();
+    for g in &goals {
+        for sym in symmetries {
+            let h = rename_goal(g, *sym);
+            if seen.insert(goal_str(&h)) {
+                out.push(h);
+            }
+        }
+    }
+    out
+}
+
 pub fn swap_t(n: &str) -> String {
     match n {
         "T0" => "T1".into(),
@@ -607,6 +644,11 @@ pub fn goals_f1a(thorough: bool) -> Vec<Goal> {
             Box::new(ex(&[0], Goal::And(vec![ga(x(0), "T1"), ga(s(x(0)), "T0")]))),
         ),
     ));
+    // a hypothesis that shares the unknown with the goal (the environment grows with the unknown
+    // while the goal stays small)
+    // (both ways round: programs are kept up to renaming of the two traits)
+    v.push(ex(&[0], Goal::If(vec![at(x(0), "T0")], Box::new(ga(x(0), "T1")))));
+    v.push(ex(&[0], Goal::If(vec![at(x(0), "T1")], Box::new(ga(x(0), "T0")))));
     // quantifier alternation
     v.push(ex(&[0], fa(1, Goal::Eq(x(0), k(1)))));
     v.push(fa(1, ex(&[0], Goal::Eq(x(0), k(1)))));
@@ -645,7 +687,8 @@ pub fn goals_f1a(thorough: bool) -> Vec<Goal> {
         v.push(Goal::Not(Box::new(fa(1, ga(k(1), "T0")))));
         v.push(Goal::Not(Box::new(Goal::And(vec![ga(a(), "T0"), ga(b(), "T0")]))));
     }
-    v
+    // F1a programs are kept up to T0<->T1, A<->B and both
+    close_goals_under(v, &[&swap_t, &swap_ab, &swap_both])
 }
 
 /// Goal set for F1b programs (trait `R<P0>`).
@@ -657,6 +700,9 @@ pub fn goals_f1b(_thorough: bool) -> Vec<Goal> {
             v.push(r(t.clone(), u));
         }
     }
+    // two arguments that are each within a small size limit while their sizes add up beyond it
+    v.push(r(s(s(a())), s(a())));
+    v.push(r(s(s(a())), s(s(b()))));
     v.push(ex(&[0, 1], r(x(0), x(1))));
     v.push(ex(&[0], r(x(0), x(0))));
     v.push(ex(&[0], r(a(), x(0))));
@@ -678,5 +724,6 @@ pub fn goals_f1b(_thorough: bool) -> Vec<Goal> {
     v.push(ga(s(a()), "T0"));
     v.push(ex(&[0], ga(x(0), "T0")));
     v.push(Goal::Not(Box::new(r(a(), b()))));
-    v
+    // F1b programs are kept up to A<->B
+    close_goals_under(v, &[&swap_ab])
 }
